@@ -179,8 +179,8 @@ PROPS['C02'] = dict(
 PROPS['C04'] = dict(
     theorems=[],
     runner=ReaderRunner(
-        quick=[('fa_hist', 8000), ('fq_hist', 8000)],
-        thorough=[('fa_hist', 150000), ('fq_hist', 150000), ('fa_seek', 50000), ('fq_seek', 50000)],
+        quick=[('fa_hist', 8000), ('fq_hist', 8000), ('fa_two', 2000), ('fq_two', 2000)],
+        thorough=[('fa_hist', 150000), ('fq_hist', 150000), ('fa_seek', 50000), ('fq_seek', 50000), ('fa_two', 40000), ('fq_two', 40000)],
         oracle=hist(False, False, True)),
     rule='random histories of next / owned next / read_record_set / read_record_set_exact(n) on three live record sets, '
          'all sets re-read after every set operation; non-trivial = a record or batch was delivered and accepted by the abstract reader',
@@ -203,8 +203,8 @@ PROPS['C05'] = dict(
 PROPS['C06'] = dict(
     theorems=[],
     runner=ReaderRunner(
-        quick=[('fa_fault', 8000), ('fq_fault', 8000), ('fa_exh', 4), ('fq_exh', 4)],
-        thorough=[('fa_fault', 150000), ('fq_fault', 150000), ('fa_seek', 50000), ('fq_seek', 50000), ('fa_exh', 6), ('fq_exh', 6)],
+        quick=[('fa_fault', 8000), ('fq_fault', 8000), ('fa_exh', 4), ('fq_exh', 4), ('fa_two', 2000), ('fq_two', 2000)],
+        thorough=[('fa_fault', 150000), ('fq_fault', 150000), ('fa_seek', 50000), ('fq_seek', 50000), ('fa_exh', 6), ('fq_exh', 6), ('fa_two', 40000), ('fq_two', 40000)],
         oracle=member),
     rule='histories under refusing policies, injected read and seek failures, post-error and post-end calls; '
          'oracle: no panic, no hang, every returned record (next, owned, record-set iteration) is a record of the input',
@@ -502,7 +502,7 @@ PROPS['C03'] = dict(
 PROPS['C12'] = dict(
     theorems=[],
     runner=GroupRunner(
-        quick=[('fa_recode', 2500), ('fq_recode', 2500)], thorough=[('fa_recode', 50000), ('fq_recode', 50000)],
+        quick=[('fa_recode', 2500), ('fq_recode', 2500), ('fa_two', 2000), ('fq_two', 2000)], thorough=[('fa_recode', 50000), ('fq_recode', 50000), ('fa_two', 40000), ('fq_two', 40000)],
         group_size=6, group_oracle=recode_group, oracle=hist(False, True, False)),
     rule='each generated well-formed file (fields free of CR/LF) in six encodings (LF/CRLF x final terminator present/absent; FASTA: '
          'two random per-line mixtures; FASTQ: with trailing blank lines) under random capacities; headers, sequence lines, qualities '
@@ -513,8 +513,8 @@ PROPS['C12'] = dict(
 PROPS['C11'] = dict(
     theorems=[],
     runner=GroupRunner(
-        quick=[('w_fq', 10000), ('fq_recode', 2500), ('fa_recode', 2500)],
-        thorough=[('w_fq', 200000), ('fq_recode', 50000), ('fa_recode', 50000)],
+        quick=[('w_fq', 10000), ('fq_recode', 2500), ('fa_recode', 2500), ('fa_two', 2000), ('fq_two', 2000)],
+        thorough=[('w_fq', 200000), ('fq_recode', 50000), ('fa_recode', 50000), ('fa_two', 40000), ('fq_two', 40000)],
         group_size=6, group_oracle=lambda g: None, oracle=unchanged),
     rule='FASTQ writer entry points on random fields (round trip through the real reader), and write_unchanged of every record of '
          'well-formed files in six encodings: the concatenated output must reproduce the input bytes up to the final terminator '
@@ -553,8 +553,8 @@ PROPS['C13'] = dict(
     theorems=['num_lines_eq_iter_len', 'num_lines_eq_lines', 'owned_eq_lines_concat', 'single_line_borrowable',
               'id_desc_split', 'utf8_header_iff_parts'],
     runner=ReaderRunner(
-        quick=[('fa_rand', 10000), ('fq_rand', 10000), ('fa_hist', 3000), ('fq_hist', 3000)],
-        thorough=[('fa_rand', 200000), ('fq_rand', 200000), ('fa_hist', 60000), ('fq_hist', 60000)],
+        quick=[('fa_rand', 10000), ('fq_rand', 10000), ('fa_hist', 3000), ('fq_hist', 3000), ('fa_two', 2000), ('fq_two', 2000)],
+        thorough=[('fa_rand', 200000), ('fq_rand', 200000), ('fa_hist', 60000), ('fq_hist', 60000), ('fa_two', 40000), ('fq_two', 40000)],
         oracle=None),
     rule='every accessor of every record (head, sequence lines, raw sequence, owned sequence, full_seq borrowed/owned, num_seq_lines, '
          'id/desc bytes three ways, UTF-8 verdicts of id()/desc()/id_desc(), owned copies, records of record sets) compared with the model; '
@@ -634,8 +634,8 @@ def views(case, toks, log, items):
 
 
 PROPS['C13']['runner'] = ReaderRunner(
-    quick=[('fa_rand', 10000), ('fq_rand', 10000), ('fa_hist', 3000), ('fq_hist', 3000)],
-    thorough=[('fa_rand', 200000), ('fq_rand', 200000), ('fa_hist', 60000), ('fq_hist', 60000)],
+    quick=[('fa_rand', 10000), ('fq_rand', 10000), ('fa_hist', 3000), ('fq_hist', 3000), ('fa_two', 2000), ('fq_two', 2000)],
+    thorough=[('fa_rand', 200000), ('fq_rand', 200000), ('fa_hist', 60000), ('fq_hist', 60000), ('fa_two', 40000), ('fq_two', 40000)],
     oracle=views)
 
 for _k, _v in PROPS.items():
